@@ -7,6 +7,7 @@ import (
 	"bytes"
 	"context"
 	"encoding/json"
+	"fmt"
 	"io"
 	"os"
 	"path/filepath"
@@ -36,6 +37,9 @@ type C19Plan struct {
 	// HeldRows: the plain-rows output is held by reference while the sorter is reset and used for another
 	// table: the rows handed out earlier must not change
 	HeldRows bool `json:"held_rows,omitempty"`
+	// OtherWidth (with HeldRows): the table fed after the Reset has one column more (+1) or one less (-1) than the
+	// first; its own output must be exactly its rows (a sorter reused for tables of different shapes, as doctor does)
+	OtherWidth int `json:"other_width,omitempty"`
 	// Synth (instead of Table): 256-800 distinct keys; DupEdge repeats the lines whose keys end or start a block in
 	// key order (positions 254, 255, 509, 510, ...), so a duplicate is the first row met after a full block
 	Synth   *SynthSpec `json:"synth,omitempty"`
@@ -135,6 +139,7 @@ func init() {
 				p.FsizeLimit, p.FsizeWindow, p.Feed = Pick(r, []uint64{1, 7, 60, 300}), []int{a, a + r.Range(1, len(tb.Rows)-a)}, Pick(r, []string{"rows", "bare"})
 			} else if p.FsizeLimit == 0 && p.SpillCut == nil && p.Reuse == "" && r.Chance(0.1) {
 				p.HeldRows = true
+				p.OtherWidth = Pick(r, []int{0, 1, 1, -1, -1})
 			}
 			if r.Chance(0.06) {
 				s := SynthSpec{N: Pick(r, []int{255, 256, 257, 300, 510, 511, 600, 800}), NCols: r.Range(2, 4), Seed: r.Uint64()}
@@ -661,13 +666,63 @@ func execC19Held(p *C19Plan, res *Result, cols []string, rows [][]string, pkName
 		}
 		other[len(rows)-1-i] = o
 	}
+	cols2 := cols
+	if p.OtherWidth < -1 || p.OtherWidth > 1 {
+		res.Invalid("other width")
+		return
+	}
+	widthChanged := false
+	if remArg == nil && p.OtherWidth == 1 {
+		cols2 = append(append([]string(nil), cols...), "extra_w")
+		for i := range other {
+			other[i] = append(other[i], fmt.Sprintf("w%d", i))
+		}
+		widthChanged = true
+	} else if remArg == nil && p.OtherWidth == -1 && len(cols) >= 2 && !contains(pk, len(cols)-1) && len(pk) > 0 {
+		cols2 = append([]string(nil), cols[:len(cols)-1]...)
+		for i := range other {
+			other[i] = other[i][:len(other[i])-1]
+		}
+		widthChanged = true
+	}
 	s1.Reset()
-	if _, err := feedSorterInto(s1, p, cols, other, pkNames, pk); err != nil {
+	if _, err := feedSorterInto(s1, p, cols2, other, pkNames, pk); err != nil {
 		res.Violate("sorter-error", "feeding the reused sorter: %v", err)
 		return
 	}
 	errCh2 := make(chan error, 1)
-	for range s1.SortedBlocks(context.Background(), remArg, errCh2) {
+	if widthChanged {
+		var got2 [][]string
+		for rs := range s1.SortedRows(context.Background(), remArg, errCh2) {
+			for _, r := range rs.Rows {
+				got2 = append(got2, append([]string(nil), r...))
+			}
+		}
+		select {
+		case err := <-errCh2:
+			res.Violate("sorter-error", "SortedRows of the second table: %v", err)
+			return
+		default:
+		}
+		in2 := other
+		if p.Feed == "csv" {
+			_, in2, _ = ParseCSV(CSVText(cols2, other, ','), ',')
+		}
+		exp2 := IngestModel(cols2, in2, pk)
+		tpk := make([]uint32, len(pk))
+		for i, u := range pk {
+			tpk[i] = uint32(u)
+		}
+		if exp2.Unique {
+			if c, d := exp2.Compare(cols2, tpk, got2); c != "" && c != "pk-differ" && c != "columns-differ" {
+				res.Violate("rows-reused-sorter-"+c, "a sorter that sorted a table of %d columns (run size %d) was reset and fed a table of %d columns: its output is not that table's rows: %s", len(cols), p.RunSize, len(cols2), d)
+				return
+			}
+		}
+		res.probe("reused_sorter_other_width", 1)
+	} else {
+		for range s1.SortedBlocks(context.Background(), remArg, errCh2) {
+		}
 	}
 	if err := s1.Close(); err != nil {
 		res.Violate("sorter-error", "Close: %v", err)
